@@ -728,3 +728,86 @@ def rule_enforce_entail(ctx: Ctx, prog: Program) -> None:
                                       f"{a}.max == {b}.min the box still contains tuples violating the relation it has just enforced; the constraint is "
                                       "then disabled for the subtree and violating assignments are reported")
     ctx.floor("R-ENFORCE-ENTAIL:blocks", n, 4)
+
+
+# ------------------------------------------------------------------ R-MIRROR-ENTAIL
+class _Mirror(ast.NodeTransformer):
+    """Value negation v -> -v: MIN <-> MAX, min <-> max, < <-> >, <= <-> >=, +k <-> -k."""
+
+    SW = {"MIN": "MAX", "MAX": "MIN", "min": "max", "max": "min"}
+
+    def visit_Name(self, n: ast.Name):
+        return ast.copy_location(ast.Name(id=self.SW.get(n.id, n.id), ctx=n.ctx), n)
+
+    def visit_Attribute(self, n: ast.Attribute):
+        self.generic_visit(n)
+        return ast.copy_location(ast.Attribute(value=n.value, attr=self.SW.get(n.attr, n.attr), ctx=n.ctx), n)
+
+    def visit_Compare(self, n: ast.Compare):
+        self.generic_visit(n)
+        flip = {ast.Lt: ast.Gt, ast.Gt: ast.Lt, ast.LtE: ast.GtE, ast.GtE: ast.LtE}
+        n.ops = [flip.get(type(o), type(o))() for o in n.ops]
+        return n
+
+    def visit_BinOp(self, n: ast.BinOp):
+        self.generic_visit(n)
+        if isinstance(n.op, (ast.Add, ast.Sub)) and isinstance(n.right, ast.Constant) and isinstance(n.right.value, int):
+            n.op = ast.Sub() if isinstance(n.op, ast.Add) else ast.Add()
+        return n
+
+
+def _canon_cmp(e: ast.expr) -> str:
+    """Text of a comparison with a canonical direction (a > b written b < a, a >= b written b <= a)."""
+    if isinstance(e, ast.Compare) and len(e.ops) == 1:
+        l, r, op = e.left, e.comparators[0], type(e.ops[0])
+        if op in (ast.Gt, ast.GtE):
+            l, r = r, l
+            op = ast.Lt if op is ast.Gt else ast.LtE
+        sym = {ast.Lt: "<", ast.LtE: "<=", ast.Eq: "==", ast.NotEq: "!="}.get(op, op.__name__)
+        a, b = ast.unparse(l), ast.unparse(r)
+        if sym in ("==", "!=") and b < a:
+            a, b = b, a
+        return f"{a} {sym} {b}"
+    if isinstance(e, ast.BoolOp):
+        return (" and " if isinstance(e.op, ast.And) else " or ").join(sorted(_canon_cmp(v) for v in e.values))
+    return ast.unparse(e)
+
+
+def _entail_guards(fn: FuncInfo) -> List[str]:
+    out = []
+    for n in ast.walk(fn.node):
+        if isinstance(n, ast.If) and any(isinstance(x, ast.Return) and isinstance(x.value, ast.Name) and x.value.id == "PROP_ENTAILMENT" for x in n.body):
+            out.append(n.test)
+        if isinstance(n, ast.Return) and isinstance(n.value, ast.IfExp) and isinstance(n.value.body, ast.Name) and n.value.body.id == "PROP_ENTAILMENT":
+            out.append(n.value.test)
+    return out
+
+
+def rule_mirror_entail(ctx: Ctx, prog: Program) -> None:
+    """Sibling propagators that are each other's image under value negation (max_leq / min_geq) must declare entailment under mirrored
+    conditions.  The check knows nothing about the constraints: it compares the two guards after mirroring one (MIN<->MAX, min<->max,
+    <= <-> >=).  A disagreement means one of the two is wrong (which one is not decided here)."""
+    ctx.rule("R-MIRROR-ENTAIL")
+    by_name = {c.name: c for _, c, _ in propagator_triples(prog)}
+    pairs = []
+    for nm, f in by_name.items():
+        if "_max_" in nm:
+            other = nm.replace("_max_", "_min_").replace("_leq", "_GEQ").replace("_geq", "_leq").replace("_GEQ", "_geq")
+            if other in by_name:
+                pairs.append((f, by_name[other]))
+    n = 0
+    for a, b in pairs:
+        ga = sorted(_canon_cmp(g) for g in _entail_guards(a))
+        gb = sorted(_canon_cmp(_Mirror().visit(ast.parse(ast.unparse(g), mode="eval").body)) for g in _entail_guards(b))
+        if not ga and not gb:
+            continue
+        n += 1
+        ctx.fn(a.fq, b.fq)
+        if ga == gb:
+            ctx.ok("R-MIRROR-ENTAIL", f"{a.name} / {b.name}: entailment guards are mirror images", sample={"guard": ga, "mirrored sibling": gb})
+        else:
+            ctx.violation("R-MIRROR-ENTAIL", b.path, f"{a.name}/{b.name}", "entailment-guards-differ", b.loc(),
+                          f"{a.name} declares entailment under {ga} but its mirror image {b.name} under {sorted(_canon_cmp(g) for g in _entail_guards(b))} "
+                          f"(= {gb} after mirroring MIN<->MAX, min<->max, <= <-> >=): the two are the same constraint up to negation of the values, "
+                          "so one of the guards declares entailment on boxes that still contain violating tuples (or never declares it)")
+    ctx.floor("R-MIRROR-ENTAIL:pairs", n, 1)
